@@ -220,7 +220,7 @@ pub fn main_with(all: fn() -> Vec<Entry>) {
                         println!("replay {cfg} ({state}) {edge} fault_at={fault}: outcome={} next={:?}", o1.outcome, o1.next);
                         let mut bad = false;
                         for f in &o1.fails {
-                            let rep = edges::reports(prop, f.class, &e);
+                            let rep = edges::reports(prop, f.class, f.kind, &e);
                             println!("  {} {}:{}: {}", if rep { "FAIL" } else { "(other property)" }, f.class.name(), f.kind, f.detail);
                             bad |= rep;
                         }
